@@ -30,6 +30,7 @@ func init() {
 			{ID: "C17-R5", Title: "the loader links functions and code objects by id", Floor: 2, Run: c17r5},
 			{ID: "C17-R6", Title: "the compiler package keeps no state between loads (shared with C05-R4)", Floor: 3, Run: c05r4},
 			{ID: "C17-R7", Title: "marshalled bytes are not storage of a pooled object", Floor: 1, Run: func(c *core.Ctx) { pooledResult(c) }},
+			{ID: "C17-R8", Title: "Code.Root returns a parentless code object (shared with C18-R7)", Floor: 1, Run: rootHasNoParent},
 		},
 	})
 }
